@@ -1088,6 +1088,9 @@ func execProgram(id int, p *Program, emit func(string)) (*failure, bool) {
 			}
 		case "split":
 			// a region split under the running transaction (real KVTxn tier only); not an operation of the model
+			if o.H == 1 {
+				storeSingle = false // directed programs split whatever the store's layout
+			}
 			if _, isTxn := t.(*txnTarget); isTxn && theCluster != nil && !storeSingle {
 				k := unhx(o.K)
 				mk := mocktikv.NewMvccKey(k) // the mock cluster is keyed by encoded keys
@@ -1986,6 +1989,22 @@ func main() {
 	}
 	for i := 0; i < nTxn; i++ {
 		runOne(genProgram(r, "txn", nops*3/4, i%5 == 0))
+	}
+	// directed: txn.BatchGet with keys partly buffered (value / tombstone), partly in the snapshot cache, partly cold,
+	// over 3+ regions, with a region split between two calls
+	{
+		snapD := [][2]string{{"6161", "01"}, {"6162", "02"}, {"6261", "03"}, {"6d61", "04"}, {"6d62", "05"}, {"7a61", "06"}, {"7a62", "07"}}
+		all := []string{"6161", "6162", "6261", "6262", "6d61", "6d62", "6e", "7a61", "7a62", "7a63"}
+		runOne(&Program{Target: "txn", Snap: snapD, Ops: []Op{
+			{Op: "split", K: "62", H: 1}, {Op: "split", K: "6d", H: 1}, {Op: "split", K: "7a", H: 1},
+			{Op: "get", K: "6161"}, {Op: "get", K: "6262"}, {Op: "bget", Keys: []string{"6d61", "7a63"}},
+			{Op: "set", K: "6d62", V: "aa"}, {Op: "del", K: "7a61"}, {Op: "set", K: "6262", V: "bb"}, {Op: "del", K: "6e"},
+			{Op: "bget", Keys: all},
+			{Op: "split", K: "6d62", H: 1}, {Op: "split", K: "6162", H: 1},
+			{Op: "bget", Keys: all}, {Op: "bget", Keys: append(append([]string{}, all...), "7a61", "6161", "6e")},
+			{Op: "staging"}, {Op: "del", K: "6161"}, {Op: "set", K: "7a61", V: "cc"}, {Op: "bget", Keys: all}, {Op: "cleanup", H: -1},
+			{Op: "split", K: "7a62", H: 1}, {Op: "bget", Keys: all}, {Op: "iter"}, {Op: "riter"}}})
+		gstats["directed-txn-batchget-mixed-regions"]++
 	}
 	nPipe := nTxn * 2
 	for i := 0; i < nPipe; i++ {
